@@ -21,6 +21,9 @@ from vt.harness import c01_gen as G
 
 LEVEL = "proof"
 NSHARDS = 16
+# two input classes hit defects of /repo whose proposed patches (fixes/C01-imagemap-long-digits.diff, fixes/C01-nested-parse-work.diff) are
+# not committed yet: they are generated only when this is set.  Make it the default once the fixes are in /repo.
+OPEN_DEFECTS = os.environ.get("VERIF_C01_OPEN_DEFECTS", "0") == "1"
 
 SEEDS = ["{{#switch:|}}", "&#99999999999;", "<nowiki>&#99999999999;</nowiki>", "&#xFFFFFFFFF;", "&#-1;", "&#x110000;", "&#0;", "&#xD800;", "[[&#xD800;]]",
          "<pre>&#99999999999;</pre>", "<inputbox/>", "<inputbox>x</inputbox>", "{{rec}}", "<ref>{{#ifexist:X|y|n}}</ref>",
@@ -167,6 +170,20 @@ def gen_inputs(run):
         add(raw, G.LANGS[i % 12], None, "quoteruns")
         if i % 4 == 0:
             add(raw.replace("'" * 5, "{{q5}}") + "\n\nnext\n", G.LANGS[i % 12], G.TEMPLATE_UNIVERSES[2], "quoteruns")
+    # wiki databases in which a page re-parses itself through a tag extension (cycle of 1..3 pages x every re-parsing tag / #tag / plain call)
+    for i, (raw, db) in enumerate(G.reparse_family()):
+        for lang in (G.LANGS[i % 12], "en" if i % 2 else "de"):      # "en" has a Page namespace alias path of its own; cover both lookups
+            add(raw, lang, db, "reparse")
+    # long digit strings (above the interpreter's 4300-digit int<->str limit) at every numeric position; exempt from the 400-char cap
+    for i, raw in enumerate(G.longdigit_family(run.tier)):
+        if "<imagemap" in raw and not OPEN_DEFECTS and len(raw) > G.INT_MAX_STR_DIGITS:
+            continue        # known open defect (fixes/C01-imagemap-long-digits.diff): generated only with VERIF_C01_OPEN_DEFECTS=1
+        add(raw, G.LANGS[i % 12], G.TEMPLATE_UNIVERSES[2] if "{{" in raw else None, "longdigits")
+    if OPEN_DEFECTS:
+        # fan-out >= 2 cycles: 2^40 nested parses on a tree without a total bound (fixes/C01-nested-parse-work.diff)
+        for i in range(60 if quick else 600):
+            raw, db = G.reparse_case(rng, 100, fanout=rng.choice([2, 2, 3]))
+            add(raw, G.LANGS[i % 12], db, "reparse-fanout")
     # exhaustive repetition families: every alphabet token alone, and pairs, repeated up to the length bound
     alpha = G.alphabet()
     for i, t in enumerate(alpha):
